@@ -1,3 +1,4 @@
+import Mqtt5V.Proofs.PubSend
 import Mqtt5V.Props.C17
 /-! # C03 — QoS 2 sender: retransmissions are faithful (packet core)
 
@@ -42,5 +43,49 @@ theorem retransmission_decodes_with_dup (pid : Nat) (topic payload : Bs) (qos re
   rw [retransmission_identical_but_dup pid topic payload qos retain ps h0.hqos h0.hretain]
   have := C17.publish_encode_decodes (some pid) topic payload qos retain 1 ps h1 hsz
   simpa [encode] using this
+
+
+/-! ## the publish operation (`publish_send_op`, Model/PubSend.lean, tied by the H-pubsend lock-step) -/
+section PubSendOp
+open Mqtt5V.Model.PubSend Mqtt5V.Proofs.PubSend
+
+/-- **QoS 2: once a PUBREL has been handed to the sender (a successful PUBREC was processed) the message is never published
+again** — for every history of write results, reconnects (`tryAgain`), malformed replies and cancellations -/
+theorem no_publish_after_pubrel (qos2 : Bool) (is : List In) (l1 l2 : List Act) (t : Bool)
+    (h : trace qos2 is = l1 ++ .sendPubrel t :: l2) : ∀ d, Act.sendPublish d ∉ l2 := by
+  intro d hd
+  have hr := rules_hold qos2 is
+  rw [h, feedAll_append] at hr
+  obtain ⟨l3, l4, rfl⟩ := List.append_of_mem hd
+  simp only [Mon.feedAll] at hr
+  rw [feedAll_append] at hr
+  simp only [Mon.feedAll] at hr
+  have hs := seenRel_sticky qos2 l3 _ (feed_pubrel_seenRel qos2 (({} : Mon).feedAll qos2 l1) t)
+  have hb := feed_publish_bad_of_seenRel qos2 _ hs d
+  rw [bad_sticky qos2 l4 _ hb] at hr
+  cases hr
+
+/-- **DUP is set exactly on a retransmission of a PUBLISH whose earlier write succeeded** -/
+theorem dup_iff_earlier_write_succeeded (qos2 : Bool) (is : List In) (l1 l2 : List Act) (d : Bool)
+    (h : trace qos2 is = l1 ++ .sendPublish d :: l2) : d = l1.any isWaitAck := by
+  have hr := rules_hold qos2 is
+  rw [h, feedAll_append] at hr
+  simp only [Mon.feedAll] at hr
+  have hsw := seenWait_eq qos2 l1 ({} : Mon)
+  simp only [Bool.false_or] at hsw
+  cases hd : (d != (({} : Mon).feedAll qos2 l1).seenWait) with
+  | false => rw [← hsw]; simpa using hd
+  | true =>
+    have hb := feed_publish_bad_of_dup_mismatch qos2 _ d hd
+    rw [bad_sticky qos2 l2 _ hb] at hr
+    cases hr
+
+/-- non-vacuity: QoS 2, write fails once, PUBREC lost on a reconnect (re-sent with DUP), PUBREC ok, PUBREL, PUBCOMP lost once, done -/
+example : trace true [.sent .tryAgain, .sent .ok, .reply .tryAgain, .sent .ok, .reply (.ack 0 7), .sent .ok, .reply .tryAgain, .sent .ok, .reply (.ack 0 9)] =
+    [.sendPublish false, .sendPublish false, .waitAck, .sendPublish true, .waitAck, .sendPubrel false, .waitPubcomp, .sendPubrel true, .waitPubcomp,
+     .freePid, .completeOk 0 9] := by decide
+
+
+end PubSendOp
 
 end Mqtt5V.Props.C03
